@@ -345,17 +345,6 @@ def check(case, ctx):
 
     # ---- `dask` bound at definition time acts as if passed at call time; the call-time value wins
     lazy = case.get("lazy", "no")
-    if lazy != "no" and route != "apply" and pad_before and bw:
-        # open finding of C06 (recorded there): dask's wrap-padding silently truncates a pad wider than the axis; that input
-        # class is left to C06's pinned reproducer
-        too_wide = False
-        for inp, arg in zip(case["inputs"], case["sig_in"]):
-            for d, p in arg:
-                if d in bw and rules[bind[d]] == "periodic" and max(bw[d]) > gen.pos_len(by[bind[d]]["n"], p):
-                    too_wide = True
-        if too_wide:
-            ctx.note("lazy_part_skipped_periodic_pad_wider_than_axis")
-            lazy = "no"
     if lazy != "no" and route != "apply" and pad_before:
         import dask
 
